@@ -421,8 +421,17 @@ def check_self(inp):
 def check_swap(inp):
     rt, rf, _, ef, w = _parse(inp)          # common time base: the estimate frames are re-used on rt
     ef = (ef + [[]] * len(rt))[:len(rt)]
-    a = _scores(rt, rf, rt, ef, w)
-    b = _scores(rt, ef, rt, rf, w)
+    et = rt
+    if inp.get("jitter"):
+        # the same frame grid written twice (e.g. k*hop vs. parsed decimal text): some stamps differ in the last bit
+        et = []
+        for t, j in zip(rt, (list(inp["jitter"]) + [0] * len(rt))[:len(rt)]):
+            x = float(t)
+            if j:
+                x = float(np.nextafter(x, np.inf if (j > 0 or x == 0.0) else -np.inf))
+            et.append(Fr(x))
+    a = _scores(rt, rf, et, ef, w)
+    b = _scores(et, ef, rt, rf, w)
     for off in (0, 7):
         if abs(b[off] - a[off + 1]) > EPS or abs(b[off + 1] - a[off]) > EPS:
             return "swap: (P, R) = (%r, %r) but swapped (P, R) = (%r, %r)" % (a[off], a[off + 1], b[off], b[off + 1])
@@ -549,7 +558,17 @@ META_CHECKERS = {"multipitch.metrics/range": guarded(check_range), "multipitch.m
                  "multipitch.metrics/swap": guarded(check_swap), "multipitch.metrics/widen": guarded(check_widen),
                  "multipitch.metrics/shift+permute": guarded(check_shift_perm),
                  "multipitch.metrics/transpose+octave": guarded(check_transpose)}
+def gen_swap(rng, tier, shard, nshards, boost):
+    for d in gen_plain(rng, tier, shard, nshards, boost):
+        if rng.random() < 0.3:
+            n = len(d["ref_time"])
+            d["jitter"] = [rng.choice([0, 0, 1, -1]) for _ in range(n)]
+            if n and rng.random() < 0.5:
+                d["jitter"][-1] = -1        # the last stamp of one side one ulp before the other's
+        yield d
+
+
 META_ORACLES = {"multipitch.metrics/range": gen_plain, "multipitch.metrics/self": gen_plain,
-                "multipitch.metrics/swap": gen_plain, "multipitch.metrics/widen": gen_widen,
+                "multipitch.metrics/swap": gen_swap, "multipitch.metrics/widen": gen_widen,
                 "multipitch.metrics/shift+permute": gen_shift_perm,
                 "multipitch.metrics/transpose+octave": gen_transpose}
